@@ -4,7 +4,8 @@
    ratio_det = the same on scatter/covariance matrices, ratio_res = det S(X|Z) det S(Y|Z) / det S(XY|Z) from
    least-squares residual vectors, ratio_seq = the same factor by factor (sequential regressions); the estimate is
    cmi = 1/2 ln ratio  (cmi_expr, meaning evalR in R).
-   The general-dimension identity  determinant form = residual form  is in Properties/C08Mx.v (mathcomp). *)
+   The general-dimension identity  determinant form = residual forms  is in Properties/C08Mx.v: for mathcomp matrices
+   and, through LinAlgBridge.v / GaussBridge.v / GaussResidBridge.v, for THIS list model. *)
 From Coq Require Import List Arith ZArith QArith Bool Reals Permutation.
 From CE Require Import Model.Itv Model.Gauss Proofs.GaussProofs Proofs.GaussRealProofs.
 Import ListNotations.
@@ -54,8 +55,9 @@ Print Assumptions C08_residuals_are_least_squares_residuals.
 
 (* non-negativity for ALL block sizes k_x, k_y >= 1, k_z >= 0: on the sequential least-squares residual form
    prod_j |res(y_j | 1,Z,y_<j)|^2 / |res(y_j | 1,Z,y_<j,X)|^2 every factor is >= 1 because an extra regressor can
-   only shrink a residual norm.  (That this form equals the code's determinant form is proved for matrices over a
-   field in C08Mx.v and checked in Q on samples inside Coq; it is not proved for the list model: partial.) *)
+   only shrink a residual norm.  (That this form equals the code's determinant form is now PROVED for the list model,
+   every sample and block size: Properties/C08Mx.v, C08_determinant_form_equals_both_residual_forms_on_lists and
+   C08_nonnegative_in_every_dimension_on_the_determinant_form; it is also checked in Q on samples inside Coq.) *)
 Theorem C08_nonnegative_in_every_dimension_on_sequential_residual_form : forall D ix iy iz q,
   ratio_seq D ix iy iz = Some q -> (1 <= q)%Q /\ (0 <= evalR [] (cmi_expr q))%R.
 Proof. exact cmi_seq_nonneg. Qed.
@@ -87,7 +89,8 @@ Print Assumptions C08_chain_rule.
 
 (* X/Y symmetry: scalar case outright; general blocks reduce to the invariance of the joint determinant under the
    simultaneous row/column permutation (Properties/C08Mx.v: C08_swap_xy, any field).
-   FULL statement: forall D ix iy iz, ratio_det D ix iy iz = ratio_det D iy ix iz  -- not proved for the list model. *)
+   FULL statement: forall D ix iy iz, ratio_det D ix iy iz = ratio_det D iy ix iz  -- proved for the list model in
+   Properties/C08Mx.v (C08_symmetric_in_X_and_Y_on_lists, through the list <-> 'M[rat] refinement of LinAlgBridge.v). *)
 Theorem C08_scalar_symmetric_in_X_and_Y : forall D i j, ratio_det D [i] [j] [] = ratio_det D [j] [i] [].
 Proof. exact ratio_det_scalar_symmetric. Qed.
 Print Assumptions C08_scalar_symmetric_in_X_and_Y.
